@@ -55,7 +55,9 @@ MUTANTS = [
  {"id": "collect-form-pair-recorded-reversed", "kind": "break", "edits": [{"patch": "/verif/benign/plist-2/patch.diff"}, ("src/plist.rs", "lines.push((start, bytes.len()));", "lines.push((bytes.len(), start));")], "expect": ["PANIC@plist::Plist::from_bytes::{closure#0}#call:index"]},
  {"id": "loop-form-pair-recorded-reversed", "kind": "break", "edits": [("src/plist.rs", "lines.push((start, bytes.len()));", "lines.push((bytes.len(), start));")], "expect": ["PANIC@plist::Plist::from_bytes#call:index"]},
  {"id": "single-pass-benign", "kind": "benign", "edits": [{"patch": "/verif/benign/m-plist-2/patch.diff"}]},
- {"id": "single-pass-slice-without-order", "kind": "break", "edits": [{"patch": "/verif/benign/m-plist-2/patch.diff"}, ("src/plist.rs", "if start < idx && tstart < idx {\n                    let entry", "if tstart < idx {\n                    let entry")], "expect": ["PANIC@plist::Plist::from_bytes#call:index"]},
+ # (this one used to be listed as a break: it is not one -- start <= tstart is the scan loop's invariant, so `tstart < idx` alone orders the slice;
+ #  the held-out patch h8-plist-3 makes exactly this edit)
+ {"id": "single-pass-slice-ordered-by-invariant", "kind": "benign", "edits": [{"patch": "/verif/benign/m-plist-2/patch.diff"}, ("src/plist.rs", "if start < idx && tstart < idx {\n                    let entry", "if tstart < idx {\n                    let entry")]},
  {"id": "read-until-form-benign", "kind": "benign", "edits": [{"patch": "/verif/benign/digest-2/patch.diff"}]},
  {"id": "read-until-loop-ignores-eof", "kind": "break", "edits": [{"patch": "/verif/benign/digest-2/patch.diff"}, ("src/digest.rs", "        if bufreader.read_until(b'\\n', &mut line)? == 0 {\n            break;\n        }", "        if bufreader.read_until(b'\\n', &mut line)? == 0 && line.len() > 1 {\n            break;\n        }")], "expect": ["TERM@digest::hash_patch_internal"]},
  {"id": "opspan-struct-benign", "kind": "benign", "edits": [{"patch": "/verif/benign/h3-dewey-2/patch.diff"}]},
@@ -156,4 +158,9 @@ MUTANTS += [
  {"id": "nb-tail-after-matched-prefix-benign", "kind": "benign", "edits": [{"patch": "/verif/benign/h7-dewey-1/patch.diff"}]},
  {"id": "nb-tail-cut-past-matched-prefix", "kind": "break", "edits": [{"patch": "/verif/benign/h7-dewey-1/patch.diff"}, ("src/dewey.rs", "let nbstr = leading_digits(&slice[2..]);", "let nbstr = leading_digits(&slice[3..]);")], "expect": ["PANIC@dewey::DeweyVersion::new"]},
  {"id": "nb-advance-zero-when-no-digits", "kind": "break", "edits": [{"patch": "/verif/benign/h7-dewey-1/patch.diff"}, ("src/dewey.rs", "idx += 2 + nbstr.len();", "idx += nbstr.len() * 2;")], "expect": ["TERM@dewey::DeweyVersion::new"]},
+
+ # bytes[start..idx] under `tstart < idx` alone: start <= tstart has to be the scan loop's invariant
+ {"id": "ordered-by-loop-invariant-benign", "kind": "benign", "edits": [{"patch": "/verif/benign/h8-plist-3/patch.diff"}]},
+ {"id": "ordered-by-loop-invariant-start-runs-ahead", "kind": "break", "edits": [{"patch": "/verif/benign/h8-plist-3/patch.diff"}, ("src/plist.rs", "                start = idx + 1;\n                tstart = start;", "                start = idx + 2;\n                tstart = idx + 1;")], "expect": ["PANIC"]},
+ {"id": "ordered-by-loop-invariant-cursor-moves-back", "kind": "break", "edits": [{"patch": "/verif/benign/h8-plist-3/patch.diff"}, ("src/plist.rs", "                tstart += 1;", "                tstart = tstart.saturating_sub(1);")], "expect": ["PANIC"]},
 ]
